@@ -334,6 +334,35 @@ def attOp (pol att c0 : String) : String :=
     | none => "bad-op"
   | _, _ => "bad-op"
 
+/-! ### `met`: the statement's metrics recomputed from the attempts' hosts and latencies (C13_metrics_exact) -/
+
+def parseNats (s : String) : Option (List Nat) := (s.splitOn ":").mapM String.toNat?
+
+def metOp (recs ends : String) : String :=
+  let rs : Option (List (List Nat)) := if recs == "-" then some [] else (recs.splitOn ",").mapM parseNats
+  match rs, (ends.splitOn ",").mapM parseNats with
+  | some rs, some es =>
+    if !(rs.all fun r => r.length == 5) || !(es.all fun e => e.length == 3) then "bad-op"
+    else
+      let hist : List (Nat × Nat) := rs.map fun r => (r.getD 0 0, r.getD 1 0)
+      let (_, obs) := QM.run {} hist
+      -- every observer record against the model's
+      let badRec := (List.range rs.length).find? fun i =>
+        let r := rs.getD i []
+        let o := obs.getD i ⟨0, 0, 0⟩
+        !(r.getD 2 0 == o.hostAttempts && r.getD 3 0 == o.hostTotal && r.getD 4 0 == o.idx)
+      match badRec with
+      | some i => s!"reject:observer-record:{i}"
+      | none =>
+        -- after every execution: Attempts() and Latency()
+        let badEnd := es.find? fun e =>
+          let q := (QM.run {} (hist.take (e.getD 0 0))).1
+          !(e.getD 2 0 == q.totalAttempts && e.getD 1 0 == q.latency)
+        match badEnd with
+        | some e => s!"reject:after-execution:{e.getD 0 0}"
+        | none => "accept"
+  | _, _ => "bad-op"
+
 def step (_ : Unit) (ws : List String) : Unit × String :=
   ((), match ws with
   | ["ex", kind, ctor, pol, polAt, obs, idem, sp, ctx, cons, _api, reps, hosts, outs] =>
@@ -381,6 +410,7 @@ def step (_ : Unit) (ws : List String) : Unit × String :=
       | _, _, _, _, _, _, _ => "bad-op"
   | ["specc", kind, idem, pol, a, nh, _ctx, events, nreq, att, obsInfo] =>
       speccOp kind idem pol a nh events nreq att obsInfo
+  | ["met", _kind, recs, ends] => metOp recs ends
   | ["rt", pol, err] => rtOp pol err
   | ["att", pol, att, c0] => attOp pol att c0
   | ["kf-down-unlogged"] =>
